@@ -349,7 +349,13 @@ pub const SEPARATORS: [&str; 11] = [
 
 /// Doc-comment separators (C13): line, block, empty, multi-line, multi-line with a blank
 /// line, nested block, two comments, CRLF.
-pub const DOC_SEPARATORS: [&str; 10] = [
+pub const DOC_SEPARATORS: [&str; 14] = [
+    // blanks at the end and at the start of the lines of a comment (the lexer trims the comment as
+    // a whole, the printer its lines)
+    "/** l1  \n l2\t\n l3 */",
+    "/**   l1\n\t\tl2   */",
+    "/// d  \n",
+    "///   d\n",
     "/// d\n",
     "/** d */",
     "///\n",
